@@ -441,3 +441,150 @@ def modes(inp, out, resolve):
           pr.append(f'sg{si}: QUANTIZE output {tname(tout)!r} has no '
                     'quantization parameters')
   return pr
+
+
+# ---------------------------------------------------------------------------
+# C04 at model level: what every operator reads and writes in the rewritten
+# model carries exactly the parameters the parameter generator computed for
+# that (tensor, operator) pair
+# ---------------------------------------------------------------------------
+_BITS_TYPE = {4: TT.INT4, 8: TT.INT8, 16: TT.INT16, 32: TT.INT32, 64: TT.INT64}
+
+
+def _flat_terms(x, dtype=None):
+  """List of z3 terms / Python numbers of an array-like of parameters."""
+  from symx import symnp
+  from symx.symnp import SymArray
+  import numpy as _np
+  if isinstance(x, (list, tuple)):
+    out = []
+    for y in x:
+      out += _flat_terms(y, dtype)
+    return out
+  if isinstance(x, SymArray):
+    if dtype is not None and x.dtype != _np.dtype(dtype):
+      x = symnp.astype(x, dtype)
+    return list(x.terms())
+  a = _np.asarray(x)
+  if dtype is not None:
+    with _np.errstate(all='ignore'):
+      a = a.astype(dtype)
+  return [v.item() for v in a.reshape(-1)]
+
+
+def _eq_terms(a, b, dtype):
+  """Equality of two parameter lists: bool, or a z3 formula."""
+  import z3
+  import numpy as _np
+  from symx import symnp
+  if len(a) != len(b):
+    return False
+  cs = []
+  for x, y in zip(a, b):
+    xs, ys = z3.is_expr(x), z3.is_expr(y)
+    if not xs and not ys:
+      if not (x == y):
+        return False
+      continue
+    if not xs:
+      x = symnp.backend().lift(_np.dtype(dtype), _np.dtype(dtype).type(x))
+    if not ys:
+      y = symnp.backend().lift(_np.dtype(dtype), _np.dtype(dtype).type(y))
+    if xs and ys and x.sort() != y.sort():
+      return False
+    try:
+      cs.append(x == y)  # SMT equality; identical terms decide at once
+    except z3.Z3Exception:
+      return False
+  if not cs:
+    return True
+  return z3.And(*cs)
+
+
+def _carries(t, p):
+  """Tensor t of the rewritten model carries UniformQuantParams p."""
+  import numpy as _np
+  q = t.quantization
+  if q is None or q.scale is None or len(q.scale) == 0:
+    return False, 'not quantized'
+  if t.type != _BITS_TYPE.get(p.num_bits):
+    return False, f'type {t.type} for {p.num_bits} bits'
+  if (q.quantizedDimension or 0) != (p.quantized_dimension or 0):
+    return False, (f'quantized dimension {q.quantizedDimension} vs '
+                   f'{p.quantized_dimension}')
+  s = _eq_terms(_flat_terms(q.scale, _np.float32),
+                _flat_terms(p.scale, _np.float32), _np.float32)
+  if s is False:
+    return False, 'scale'
+  z = _eq_terms(_flat_terms(q.zeroPoint, _np.int64),
+                _flat_terms(p.zero_point, _np.int64), _np.int64)
+  if z is False:
+    return False, 'zero point'
+  if s is True and z is True:
+    return True, ''
+  import z3
+  return z3.And(*[c for c in (s, z) if c is not True]), 'scale/zero point'
+
+
+def carried_params(inp, out, params):
+  """List of (where, cond, what): cond is a bool or a z3 formula."""
+  from ai_edge_quantizer import qtyping
+  QT = qtyping.QuantTransformation
+  res = []
+  if len(inp.subgraphs) != len(out.subgraphs):
+    return res
+  for si, (gi, go) in enumerate(zip(inp.subgraphs, out.subgraphs)):
+    n0 = len(gi.tensors)
+    kept, producer_of = [], {}
+    for op in go.operators:
+      for o in op.outputs:
+        producer_of[o] = op
+      if (_is_qdq(out, op) and len(op.outputs) == 1 and op.outputs[0] >= n0
+          and len(op.inputs) == 1):
+        continue
+      kept.append(op)
+    if len(kept) != len(gi.operators):
+      continue  # C02's business
+    for oi, (a, b) in enumerate(zip(gi.operators, kept)):
+      if len(a.inputs) != len(b.inputs) or len(a.outputs) != len(b.outputs):
+        continue
+      for j, x in enumerate(a.inputs):
+        if x == -1 or b.inputs[j] == -1:
+          continue
+        name = tname(gi.tensors[x])
+        ttp = params.get(name)
+        cs = [c for c in (ttp.consumers or []) if c.subgraph_op_id == oi] \
+            if ttp is not None else []
+        if not cs or not isinstance(cs[0].parameters,
+                                    qtyping.UniformQuantParams):
+          continue
+        c = cs[0]
+        tr = list(c.transformations or [])
+        if not tr or QT.EMULATED_SUBCHANNEL in tr:
+          continue
+        actual = go.tensors[b.inputs[j]]
+        where = f'sg{si} op {oi} operand {j} ({name!r})'
+        if tr[-1] in (QT.ADD_QUANTIZE, QT.QUANTIZE_TENSOR):
+          ok, what = _carries(actual, c.parameters)
+          res.append((where, ok, what))
+        elif tr[-1] == QT.ADD_DEQUANTIZE:
+          src = producer_of.get(b.inputs[j])
+          if actual.type != TT.FLOAT32 or src is None or \
+              _code(out, src) != BO.DEQUANTIZE:
+            res.append((where, False, 'not read through a DEQUANTIZE'))
+            continue
+          ok, what = _carries(go.tensors[src.inputs[0]], c.parameters)
+          res.append((where + ' before DEQUANTIZE', ok, what))
+      for j, x in enumerate(a.outputs):
+        name = tname(gi.tensors[x])
+        ttp = params.get(name)
+        p = ttp.producer if ttp is not None else None
+        if p is None or p.subgraph_op_id != oi or not isinstance(
+            p.parameters, qtyping.UniformQuantParams):
+          continue
+        tr = list(p.transformations or [])
+        if tr != [QT.ADD_DEQUANTIZE]:
+          continue
+        ok, what = _carries(go.tensors[b.outputs[j]], p.parameters)
+        res.append((f'sg{si} op {oi} result {j} ({name!r})', ok, what))
+  return res
